@@ -61,11 +61,109 @@ package aper
 
 //@ func (*perBitData).getBitsValue
 //@ prop C14 C04
+//@ behavior small
+//@ requires inv: vcInv(pd)
+//@ requires size: numBits <= 64
+//@ ensures inv: vcInv(pd) && pd.byteOffset >= old(pd.byteOffset)
+//@ ensures err: (err != nil) == (uint64(numBits) > vcBitsLeft(old(pd.byteOffset), old(pd.bitsOffset), len(pd.bytes)))
+//@ ensures same: vc.Imp(err != nil, pd.byteOffset == old(pd.byteOffset) && pd.bitsOffset == old(pd.bitsOffset))
+//@ ensures adv: vc.Imp(err == nil, 8*pd.byteOffset+uint64(pd.bitsOffset) == 8*old(pd.byteOffset)+uint64(old(pd.bitsOffset))+uint64(numBits))
+//@ ensures value: vc.Imp(err == nil, value == per.BitsValue(pd.bytes[old(pd.byteOffset):], int(old(pd.bitsOffset)), int(numBits)))
+//@ assigns &pd.byteOffset, &pd.bitsOffset
+//@ behavior total
 //@ requires inv: vcInv(pd)
 //@ requires size: numBits <= 1<<40
 //@ ensures inv: vcInv(pd) && pd.byteOffset >= old(pd.byteOffset)
 //@ ensures err: (err != nil) == (uint64(numBits) > vcBitsLeft(old(pd.byteOffset), old(pd.bitsOffset), len(pd.bytes)))
 //@ ensures same: vc.Imp(err != nil, pd.byteOffset == old(pd.byteOffset) && pd.bitsOffset == old(pd.bitsOffset))
 //@ ensures adv: vc.Imp(err == nil, 8*pd.byteOffset+uint64(pd.bitsOffset) == 8*old(pd.byteOffset)+uint64(old(pd.bitsOffset))+uint64(numBits))
-//@ ensures value: vc.Imp(err == nil && numBits <= 64, value == per.BitsValue(pd.bytes[old(pd.byteOffset):], int(old(pd.bitsOffset)), int(numBits)))
 //@ assigns &pd.byteOffset, &pd.bitsOffset
+
+//@ func (*perBitData).parseAlignBits
+//@ prop C14 C04
+//@ requires inv: vcInv(pd)
+//@ ensures inv: vcInv(pd) && pd.byteOffset >= old(pd.byteOffset)
+//@ ensures aligned: vc.Imp(result == nil, pd.bitsOffset == 0 && pd.byteOffset == old(pd.byteOffset)+uint64((old(pd.bitsOffset)+7)>>3))
+//@ ensures padding: (result == nil) == (old(pd.bitsOffset) == 0 || per.BitsValue(pd.bytes[old(pd.byteOffset):], int(old(pd.bitsOffset)), int(8-old(pd.bitsOffset))) == 0)
+//@ assigns &pd.byteOffset, &pd.bitsOffset
+
+// X.691 10.5.7: a constrained whole number with range <= 255 is a bit field of the minimal width,
+// range 256 one aligned octet, range up to 64K two aligned octets.
+//@ func (*perBitData).parseConstraintValue
+//@ prop C14 C04
+//@ requires inv: vcInv(pd)
+//@ ensures inv: vcInv(pd) && pd.byteOffset >= old(pd.byteOffset)
+//@ ensures range: vc.Imp(valueRange < 0 || valueRange > 65536, err != nil)
+//@ ensures small: vc.Imp(err == nil, value <= 65535)
+//@ ensures field: vc.Imp(err == nil && valueRange <= 255, value == per.BitsValue(pd.bytes[old(pd.byteOffset):], int(old(pd.bitsOffset)), per.FieldWidth(valueRange)) && 8*pd.byteOffset+uint64(pd.bitsOffset) == 8*old(pd.byteOffset)+uint64(old(pd.bitsOffset))+uint64(per.FieldWidth(valueRange)))
+//@ ensures octets: vc.Imp(err == nil && valueRange >= 256, pd.bitsOffset == 0 && value == per.BitsValue(pd.bytes[old(pd.byteOffset)+uint64((old(pd.bitsOffset)+7)>>3):], 0, 8*per.OctetsFor(valueRange)) && pd.byteOffset == old(pd.byteOffset)+uint64((old(pd.bitsOffset)+7)>>3)+uint64(per.OctetsFor(valueRange)))
+//@ assigns &pd.byteOffset, &pd.bitsOffset
+//@ loop i unroll 9
+
+// X.691 10.9: length determinant.  Constrained (range <= 64K): a constrained whole number;
+// otherwise aligned: 0xxxxxxx (<= 127), 10xxxxxx xxxxxxxx (<= 16383), 11000mmm (m*16K fragment, m = 1..4).
+//@ func (*perBitData).parseLength
+//@ prop C14 C04
+//@ requires inv: vcInv(pd)
+//@ ensures inv: vcInv(pd) && pd.byteOffset >= old(pd.byteOffset)
+//@ ensures bound: vc.Imp(err == nil, value <= 65536)
+//@ ensures fragment: vc.Imp(err == nil && !(sizeRange <= 65536 && sizeRange > 0), *repeat == (value >= 16384))
+//@ ensures norepeat: vc.Imp(sizeRange <= 65536 && sizeRange > 0, !*repeat)
+//@ ensures progress: vc.Imp(err == nil && *repeat, pd.byteOffset > old(pd.byteOffset))
+//@ assigns &pd.byteOffset, &pd.bitsOffset, repeat
+
+//@ func (*perBitData).parseBool
+//@ prop C14 C04
+//@ requires inv: vcInv(pd)
+//@ ensures inv: vcInv(pd) && pd.byteOffset >= old(pd.byteOffset)
+//@ ensures bit: vc.Imp(err == nil, value == (per.BitsValue(pd.bytes[old(pd.byteOffset):], int(old(pd.bitsOffset)), 1) == 1))
+//@ assigns &pd.byteOffset, &pd.bitsOffset
+
+//@ func (*perBitData).parseEnumerated
+//@ prop C14 C04
+//@ maynil lowerBoundPtr upperBoundPtr
+//@ requires inv: vcInv(pd)
+//@ ensures inv: vcInv(pd) && pd.byteOffset >= old(pd.byteOffset)
+//@ ensures refuse: vc.Imp(extensed || lowerBoundPtr == nil || upperBoundPtr == nil, err != nil)
+//@ assigns &pd.byteOffset, &pd.bitsOffset
+
+//@ func (*perBitData).getChoiceIndex
+//@ prop C14 C04
+//@ maynil upperBoundPtr
+//@ requires inv: vcInv(pd)
+//@ ensures inv: vcInv(pd) && pd.byteOffset >= old(pd.byteOffset)
+//@ ensures refuse: vc.Imp(extensed || upperBoundPtr == nil, err != nil)
+//@ ensures index: vc.Imp(err == nil, present >= 1 && present <= 65536)
+//@ assigns &pd.byteOffset, &pd.bitsOffset
+
+//@ func (*perBitData).parseInteger
+//@ prop C14 C04
+//@ maynil lowerBoundPtr upperBoundPtr
+//@ requires inv: vcInv(pd)
+//@ requires bounds: lowerBoundPtr == nil || upperBoundPtr == nil || (*lowerBoundPtr <= *upperBoundPtr && *upperBoundPtr-*lowerBoundPtr >= 0)
+//@ ensures inv: vcInv(pd) && pd.byteOffset >= old(pd.byteOffset)
+//@ ensures fixed: vc.Imp(!extensed && lowerBoundPtr != nil && upperBoundPtr != nil && *lowerBoundPtr == *upperBoundPtr, result1 == nil && result0 == *upperBoundPtr && pd.byteOffset == old(pd.byteOffset) && pd.bitsOffset == old(pd.bitsOffset))
+//@ assigns &pd.byteOffset, &pd.bitsOffset
+//@ loop byteLen unroll 9
+//@ loop i unroll 9
+
+//@ func (*perBitData).parseOctetString
+//@ prop C14 C04
+//@ maynil lowerBoundPtr upperBoundPtr
+//@ requires inv: vcInv(pd)
+//@ requires bounds: (lowerBoundPtr == nil || (*lowerBoundPtr >= 0 && *lowerBoundPtr <= 65535)) && (upperBoundPtr == nil || *upperBoundPtr >= 0) && (lowerBoundPtr == nil || upperBoundPtr == nil || *lowerBoundPtr <= *upperBoundPtr)
+//@ ensures inv: vcInv(pd) && pd.byteOffset >= old(pd.byteOffset)
+//@ ensures alloc: len(result0) <= len(pd.bytes)+8
+//@ assigns &pd.byteOffset, &pd.bitsOffset
+//@ loop octetString invariant inv (pd *perBitData, octetString OctetString, old_pd perBitData): vcInv(pd) && pd.byteOffset >= old_pd.byteOffset && uint64(len(octetString)) <= pd.byteOffset && len(pd.bytes) == len(old_pd.bytes)
+//@ loop octetString decreases (pd *perBitData): len(pd.bytes) - int(pd.byteOffset)
+
+//@ func (*perBitData).parseBitString
+//@ prop C14 C04
+//@ maynil lowerBoundPtr upperBoundPtr
+//@ requires inv: vcInv(pd)
+//@ requires bounds: (lowerBoundPtr == nil || (*lowerBoundPtr >= 0 && *lowerBoundPtr <= 65535)) && (upperBoundPtr == nil || *upperBoundPtr >= 0) && (lowerBoundPtr == nil || upperBoundPtr == nil || *lowerBoundPtr <= *upperBoundPtr)
+//@ ensures inv: vcInv(pd) && pd.byteOffset >= old(pd.byteOffset)
+//@ ensures alloc: len(result0.Bytes) <= len(pd.bytes)+8
+//@ assigns &pd.byteOffset, &pd.bitsOffset
+//@ loop 0 invariant inv (pd *perBitData, bitString BitString, old_pd perBitData): vcInv(pd) && pd.byteOffset >= old_pd.byteOffset && uint64(len(bitString.Bytes)) <= pd.byteOffset+1 && len(pd.bytes) == len(old_pd.bytes)
